@@ -294,9 +294,22 @@ const _: () = {
     }
 };
 
+/// A field value can't carry CR, LF or NUL: a line break inside it would end
+/// the header line and let the rest be read as further header lines or as the body.
+/// Each of them is replaced with SP (RFC 9110, 5.5); the length doesn't change.
+#[inline]
+fn without_line_breaks(value: Cow<'static, str>) -> Cow<'static, str> {
+    if value.bytes().any(|b| matches!(b, b'\r' | b'\n' | b'\0')) {
+        Cow::Owned(value.replace(['\r', '\n', '\0'], " "))
+    } else {
+        value
+    }
+}
+
 impl Headers {
     #[inline(always)]
     pub(crate) fn insert(&mut self, name: Header, value: Cow<'static, str>) {
+        let value = without_line_breaks(value);
         let (name_len, value_len) = (name.len(), value.len());
         match unsafe {self.standard.get_mut(name as usize)} {
             None => {
@@ -311,6 +324,7 @@ impl Headers {
     }
     #[inline]
     pub(crate) fn insert_custom(&mut self, name: &'static str, value: Cow<'static, str>) {
+        let value = without_line_breaks(value);
         let self_len = value.len();
         match &mut self.custom {
             None => {
@@ -355,6 +369,7 @@ impl Headers {
     }
 
     pub(crate) fn append(&mut self, name: Header, value: Cow<'static, str>) {
+        let value = without_line_breaks(value);
         let value_len = value.len();
         let target = unsafe {self.standard.get_mut(name as usize)};
 
@@ -382,6 +397,7 @@ impl Headers {
         };
     }
     pub(crate) fn append_custom(&mut self, name: &'static str, value: Cow<'static, str>) {
+        let value = without_line_breaks(value);
         let value_len = value.len();
 
         let custom = {
